@@ -252,4 +252,27 @@ def compositeForward {α} (calls : List (String × α)) : List (Gen.Runner.Recei
 def receivedBy {α} (who : Gen.Runner.Receiver) (l : List (Gen.Runner.Receiver × String × α)) : List (String × α) :=
   (l.filter (fun x => x.1 == who)).map (·.2)
 
+/-! ## CommandLineTestRunner::initializeTestRun: the static rethrow flag -/
+
+/-- one regenerated statement of `initializeTestRun` that writes `UtestShell::rethrowExceptions_`:
+    `opt` = `arguments_->isRethrowingExceptions()`, `flag` = the static before the statement -/
+def execRethrowInit (opt : Bool) (flag : Bool) (s : Gen.Runner.RethrowInit) : Bool :=
+  let taken := match s.guard with
+    | .always => true
+    | .ifOption => opt
+    | .ifNotOption => !opt
+  let value := match s.value with
+    | .option => opt
+    | .notOption => !opt
+    | .lit b => b
+  if taken then value else flag
+
+/-- the static after the given statements -/
+def execRethrowInits (opt : Bool) (code : List Gen.Runner.RethrowInit) (flag : Bool) : Bool :=
+  code.foldl (execRethrowInit opt) flag
+
+/-- `initializeTestRun` as the source has it at check time -/
+def initializeTestRunGen (optRethrow : Bool) (pr : Process) : Process :=
+  { pr with rethrowExceptions := execRethrowInits optRethrow Gen.Runner.initializeTestRunRethrowCode pr.rethrowExceptions }
+
 end Runner
